@@ -35,11 +35,12 @@ Kinds == {"LocalSetNew", "LocalSetChange", "LocalSetSame", "LocalSetAfterDelete"
           \* the owner's copy is rebuilt from scratch by a resetting delta (from version 0, GC watermark above the
           \* copy's frontier: state.rs reset_node); subscriptions are per node, not per copy, so they survive it:
           "ReplResetCarried",           \* the newer value is carried by the resetting delta itself
-          "ReplAfterReset"}             \* the newer value arrives in an ordinary delta after the copy was reset
+          "ReplAfterReset",             \* the newer value arrives in an ordinary delta after the copy was reset
+          "ReplResetTombstone"}         \* the resetting delta carries the key as a tombstone: no call
 Fires(kind) == kind \in {"LocalSetNew", "LocalSetChange", "LocalSetAfterDelete", "LocalSetTtlNew",
                          "ReplNewerSet", "ReplNewerTtl", "LocalSetEmptyAfterDelete", "LocalSetTtlSameValue",
                          "ReplSameValueNewer", "ReplResetCarried", "ReplAfterReset"}
-Owner(kind) == IF kind \in {"ReplNewerSet", "ReplNewerTtl", "ReplTombstone", "ReplStale", "ReplSameValueNewer", "ReplResetCarried", "ReplAfterReset"} THEN "n2" ELSE "n1"
+Owner(kind) == IF kind \in {"ReplNewerSet", "ReplNewerTtl", "ReplTombstone", "ReplStale", "ReplSameValueNewer", "ReplResetCarried", "ReplAfterReset", "ReplResetTombstone"} THEN "n2" ELSE "n1"
 ValueOf(kind) == IF kind = "LocalSetEmptyAfterDelete" THEN "" ELSE "v1"
 
 VARIABLES subs,   \* sequence of [prefix, fate]
